@@ -332,6 +332,11 @@ func (b *bufferedReadSeeker) Read(p []byte) (int, error) {
 	// Read from buffer.
 	readFromBuf := copy(p, b.buf[b.readHead:b.writeHead])
 	b.readHead += readFromBuf
+	if readFromBuf == len(p) {
+		// The read was satisfied from the buffer, so the state of the wrapped
+		// source (for instance that it has reached io.EOF) does not yet apply.
+		return readFromBuf, nil
+	}
 	// Read from wrapped source and write to buffer.
 	readFromSource, err := b.r.Read(p[readFromBuf:])
 	written := copy(b.buf[b.writeHead:], p[readFromBuf:(readFromBuf+readFromSource)])
